@@ -540,6 +540,58 @@ func retrieveSites() []retrieveSite {
 	return out
 }
 
+// ---------- HTTP clients ----------
+
+// httpClientFact: every http.Client the services build (composite literal), and every use of the package-level client
+// (http.Get / Post / DefaultClient), with whether an overall Timeout bounds a request — dial, TLS handshake, headers and body
+type httpClientFact struct {
+	at         string
+	hasTimeout bool
+}
+
+func httpClients() []httpClientFact {
+	var out []httpClientFact
+	note := func(at string, n ast.Node) {
+		ast.Inspect(n, func(x ast.Node) bool {
+			switch y := x.(type) {
+			case *ast.CompositeLit:
+				if src(y.Type) == "http.Client" {
+					f := httpClientFact{at: at}
+					for _, el := range y.Elts {
+						if kv, ok := el.(*ast.KeyValueExpr); ok && src(kv.Key) == "Timeout" && src(kv.Value) != "0" {
+							f.hasTimeout = true
+						}
+					}
+					out = append(out, f)
+				}
+			case *ast.SelectorExpr:
+				if c := src(y); c == "http.Get" || c == "http.Post" || c == "http.PostForm" || c == "http.Head" || c == "http.DefaultClient" {
+					out = append(out, httpClientFact{at: at + " " + c})
+				}
+			}
+			return true
+		})
+	}
+	for pkg, fs := range pkgs {
+		if pkg == "helpers" {
+			continue
+		}
+		for name, fd := range fs {
+			if strings.HasPrefix(funcFile[pkg+"."+name], "testing_") {
+				continue
+			}
+			note(pkg+"."+name, fd.Body)
+		}
+	}
+	for name, v := range pkgVars {
+		if !strings.HasPrefix(name, "helpers.") {
+			note(name, v)
+		}
+	}
+	sort.Slice(out, func(i, j int) bool { return out[i].at < out[j].at })
+	return out
+}
+
 // ---------- accept loops ----------
 
 // acceptFact: a `for` loop that takes connections off a listener (`conn, err := x.Accept()`), and what the statement guarding
@@ -870,6 +922,13 @@ func main() {
 	b.WriteString("/-- every call of the object store's Retrieve: the function it is in, and whether its error is handed on -/\ndef retrieveSites : List (Bytes × Bool) := [\n")
 	for _, r := range retrieveSites() {
 		fmt.Fprintf(&b, "  (%s, %s),\n", lb(r.at), bl(r.propagates))
+	}
+	b.WriteString("]\n\n")
+
+	// HTTP clients
+	b.WriteString("/-- every HTTP client of the services, and whether an overall Timeout bounds its requests -/\ndef httpClients : List (Bytes × Bool) := [\n")
+	for _, h := range httpClients() {
+		fmt.Fprintf(&b, "  (%s, %s),\n", lb(h.at), bl(h.hasTimeout))
 	}
 	b.WriteString("]\n\n")
 
